@@ -482,7 +482,9 @@ fn pair_f<R1: Round, R2: Round, const B: Word>(a: &FBig<R1, B>, b: &FBig<R2, B>)
 
 fn fdesc<R: Round, const B: Word>(x: &FBig<R, B>) -> String {
     let l = repr_layout_ibig(x.repr().significand());
-    format!("{} {:x} {}", hrepr(x.repr()), x.precision(), lay(l))
+    // Repr::digits_ub is the estimate the comparison shortcut relies on (it asserts finiteness)
+    let dub = if x.repr().is_infinite() { 0 } else { x.repr().digits_ub() };
+    format!("{} {:x} {:x} {}", hrepr(x.repr()), x.precision(), dub, lay(l))
 }
 
 struct FArg<'a> {
